@@ -244,15 +244,24 @@ func c04FlushOrder(c *Ctx, rule string) {
 					return true
 				}
 				inspectBody(f.Decl.Body, func(z ast.Node) bool {
-					rs, ok := z.(*ast.RangeStmt)
-					if !ok || rs.Pos() < ifs.End() {
+					var loopBody *ast.BlockStmt
+					switch l := z.(type) {
+					case *ast.RangeStmt:
+						if rid, ok := ast.Unparen(l.X).(*ast.Ident); ok && f.ObjOf(rid) == f.ObjOf(id) {
+							loopBody = l.Body
+						}
+					case *ast.ForStmt:
+						// `for i := 0; i < len(S); i++`
+						if l.Cond != nil && strings.Contains(exprKey(l.Cond), "<len("+id.Name+")") {
+							loopBody = l.Body
+						}
+					}
+					if loopBody == nil || z.Pos() < ifs.End() {
 						return true
 					}
-					if rid, ok := ast.Unparen(rs.X).(*ast.Ident); ok && f.ObjOf(rid) == f.ObjOf(id) {
-						for _, u := range updates {
-							if rs.Body.Pos() <= u.Pos() && u.End() <= rs.Body.End() {
-								hit = true
-							}
+					for _, u := range updates {
+						if loopBody.Pos() <= u.Pos() && u.End() <= loopBody.End() {
+							hit = true
 						}
 					}
 					return true
